@@ -251,7 +251,7 @@ class SetEncoder(encoder.SequenceEncoder):
                     continue
 
                 compsMap[id(component)] = namedType
-                comps.append((component, asn1Spec[idx]))
+                comps.append((component, namedType.asn1Object))
 
         def outermostTag(componentAndType):
             # X.690 10.3 / X.680 8.6: components are ordered by the tag
